@@ -46,6 +46,7 @@ func rulesC03(w *World, r *Report) {
 	w.ruleHeaderSiblings(r, "C03.R4 typed headers read the type through the type reader")
 	w.ruleLiteralTypeNumberedPX(r, "C03.R4 typed headers read the type through the type reader")
 	w.ruleChunkBuffers(r, "C03.R5 chunk length governs the read size")
+	w.ruleChunkContinuation(r, "C03.R5 only a non-final chunk is followed by another")
 	w.ruleLoopExits(r, "C03.R6 variable-length lists end on the terminator", true)
 	w.ruleHolderChangePX(r, "C03.R6 variable-length lists keep every element")
 	r.note("spec table digest %s", specDigest())
